@@ -1,6 +1,6 @@
 (* C01 - content-addressed round trip on every write path.  Statements only. *)
 From Coq Require Import List ZArith NArith.
-From DOS Require Import Generated Base Store StoreProofs StoreLemmas Streams StreamsProofs Programs ProgramsProofs.
+From DOS Require Import Generated Base Store StoreProofs StoreLemmas Streams StreamsProofs Programs ProgramsProofs PackProofs AddPackProofs ImportProofs.
 Import ListNotations.
 
 Section C01.
@@ -21,6 +21,31 @@ Proof. exact (add_loose_roundtrip H inflate H_inj). Qed.
 Theorem C01_packed_entries_read_back : forall w r, Inv H inflate w -> In r (db w) ->
   exists c, stored inflate w (rkey r) = Some c /\ H c = rkey r /\ length c = rsize r.
 Proof. exact (manual_recovery H inflate). Qed.
+(* direct-to-pack write paths (add_objects_to_pack / add_streamed_object(s)_to_pack; compressed or not, singly or in a batch, all
+   three no_holes modes, with or without fsync): for every world satisfying the invariant and EVERY batch (repetitions and already
+   known content included), after the completed call every object of the batch reads back as exactly its content under the digest
+   of exactly that content (the stored blob is whatever the compressor produced: an oracle that only has to decode to the content) *)
+Theorem C01_direct_to_pack_roundtrip : forall w l id objs nh twice fs,
+  Inv H inflate w -> pending l = [] -> Forall (aobj_ok H inflate) objs ->
+  exists w' l', run_events (w, l) (p_add_to_pack w id objs nh twice fs) = (w', l') /\ Inv H inflate w' /\
+    forall o, In o objs ->
+      exists c, decode inflate (oblob o) (ocomp o) = Some c /\ H c = okey o /\ stored inflate w' (okey o) = Some c.
+Proof.
+  intros w l id objs nh twice fs HI Hp Ho.
+  destruct (import_transfers_all H inflate H_inj w l [(id, objs)] nh twice fs HI Hp) as (w' & l' & Er & I' & _ & Hall).
+  { constructor; [exact Ho|constructor]. }
+  rewrite (import_one_batch w id objs nh twice fs) in Er.
+  exists w', l'. split; [exact Er|]. split; [exact I'|].
+  intros o Hin. exact (Hall (id, objs) o (or_introl eq_refl) Hin).
+Qed.
+(* loose, then packed (pack_all_loose, one pack, any compression outcome per object, with or without fsync and per-pack clean): every
+   packed object still reads back as exactly the bytes its loose file held *)
+Theorem C01_loose_then_pack_roundtrip : forall w l id objs fs clean,
+  Inv H inflate w -> pending l = [] ->
+  Forall (obj_ok inflate w) objs -> NoDup (map okey objs) -> (forall o, In o objs -> ~ In (okey o) (map rkey (db w))) ->
+  forall o, In o objs -> exists f, get_loose w (okey o) = Some f /\
+    stored inflate (crash (run_events (w, l) (p_pack_one w id objs fs clean))) (okey o) = Some (fdata f).
+Proof. exact (pack_one_indexes_all H inflate H_inj). Qed.
 End C01.
 
 (* reading a packed object through PackedObjectReader, whole or by any program of reads, equals reading the bytes themselves *)
@@ -35,3 +60,5 @@ Print Assumptions C01_loose_roundtrip.
 Print Assumptions C01_packed_entries_read_back.
 Print Assumptions C01_packed_reader_returns_the_bytes.
 Print Assumptions C01_chunk_constants.
+Print Assumptions C01_direct_to_pack_roundtrip.
+Print Assumptions C01_loose_then_pack_roundtrip.
